@@ -1088,6 +1088,20 @@ func runH2History(t *testing.T, vt *vhT, seed int64, nOps int) {
 			}
 		}
 		if rng.Intn(3) == 0 {
+			if rng.Intn(2) == 0 { // one relay socket reports an error from Close: the others must be released all the same
+				w.n.mu.Lock()
+				var relays []string
+				for k, pc := range w.n.udp {
+					if !pc.quiet {
+						relays = append(relays, k)
+					}
+				}
+				sortStrings(relays)
+				if len(relays) > 0 {
+					w.n.udp[relays[rng.Intn(len(relays))]].closeErr = true
+				}
+				w.n.mu.Unlock()
+			}
 			h.do("close", func() { _ = w.srv.Close() })
 			h.closed = true
 			// C15 monitor: after Server.Close nothing should be served any more
@@ -1125,6 +1139,8 @@ func TestVerifH2(t *testing.T) {
 	vt.Watchdog(90 * time.Second)
 	if only < 0 {
 		h2RealSockets(vt)
+		vt.Flush()
+		h2BindResponseLost(t, vt)
 		vt.Flush()
 	}
 	for i := 0; i < nHist; i++ {
